@@ -34,7 +34,7 @@ CHECKS = {
  "C04": ("model_checking", "explicit-state closure of the real InputGenerator over ~700 key units in lock-step with the per-unit meaning and the greedy CR/LF pairing automaton; exhaustive two-instance interleavings (bounded depth) against the solo runs",
          "The real InputGenerator is driven by complete key units (every printable ASCII, boundary scalars of each length, CR, LF, BS, TAB, DEL, every other C0 byte, ESC [ params final for every final byte 0x40..0x7E and several parameter strings) from every reachable decoder state to closure, so unit streams of every length are covered; outputs must equal the unit's meaning and terminators follow the 3-state greedy pairing reference. 'Depends only on the byte sequence': every interleaving of <= 4 (5) bytes between two fresh decoders and of <= 3-4 (4-5) events between two fresh Cli instances is executed sequentially and each instance's answers and final state are compared with the same instance driven alone.",
          "DEL is left open; bytes inside a CSI other than parameter/intermediate bytes are outside the alphabet.", "4 C04"),
- "C07": ("exploration", "complete enumeration of all lines up to a length bound over a 6-symbol alphabet through the real Tokens::new and through a Cli, against a char-level reference tokeniser; complete enumeration of lists for the round trip",
+ "C07": ("exploration", "complete enumeration of all lines up to a length bound over a 6-symbol alphabet (plus a 7-symbol alphabet of Latin-1 blanks inside multi-byte characters and a 9-symbol alphabet of ASCII specials: tab, single quote, =, #) through the real Tokens::new and through a Cli, against a char-level reference tokeniser; complete enumeration of lists for the round trip",
          "Every string of <= 9 symbols (thorough 11) over {a, space, quote, backslash, dash, é} (count checked against the closed form) is tokenised by the real Tokens::new and must be one of the token lists the statement admits; every line <= 6 symbols is also typed into a Cli and observed in the handler; every list of <= 3 strings of <= 2 symbols and <= 2 strings of <= 3 symbols is rendered quoted and must tokenise back to itself; every string of <= 4 (6) symbols at every offset 0..=48 (80) of 171 long contexts x 5 continuations, and the round trip of a^i.special.a^j for all i+j <= 40 (72).",
          "Bounded length; forks only for backslash followed by a character other than quote/backslash inside quotes.", "4 C07"),
  "C08": ("exploration", "complete enumeration of token lists (bounded) through Tokens::from_raw + ArgList::args against a reference classifier and the re-join law",
